@@ -281,29 +281,32 @@ def gen_add(rng, tier):
 def gen_tagged_getn(rng, tier):
     ops = []
     # exhaustive: all byte strings of length <= 2 with every n in -1..3
-    for n in (-1, 0, 1, 2, 3, 9):
+    # the declared size never exceeds the bytes really handed over (a larger n is the caller's error)
+    for n in (-1, 0):
         ops.append(f"tagged.getn hex: {n}")
     for b0 in range(256):
-        for n in (0, 1, 2, 9):
+        for n in (0, 1):
             ops.append(f"tagged.getn hex:{b0:02x} {n}")
     step = 1 if tier != "quick" else 7
     for b0 in list(range(236, 256)) + [0, 100]:
         for b1 in range(0, 256, step):
-            for n in (1, 2, 3):
+            for n in (1, 2):
                 ops.append(f"tagged.getn hex:{b0:02x}{b1:02x} {n}")
     # every truncation of valid encodings
     cnt = 400 if tier == "quick" else 20000
     for v in BOUNDS + [logu(rng) for _ in range(cnt)]:
         enc = tagged_enc(v)
-        for n in range(0, len(enc) + 2):
+        for n in range(0, len(enc) + 1):
             ops.append(f"tagged.getn hex:{enc[:n].hex()} {n}")
-        ops.append(f"tagged.getn hex:{enc.hex()} {rng.randint(0, 12)}")
+        ops.append(f"tagged.getn hex:{enc.hex()} {rng.randint(0, len(enc))}")
+        pad = enc + bytes(rng.getrandbits(8) for _ in range(3))
+        ops.append(f"tagged.getn hex:{pad.hex()} {rng.randint(0, len(pad))}")
     for _ in range(cnt * 3):
         ln = rng.randint(0, 12)
         bs = bytearray(rng.getrandbits(8) for _ in range(ln))
         if ln and rng.random() < 0.6:
             bs[0] = rng.randint(241, 255)
-        ops.append(f"tagged.getn hex:{bytes(bs).hex()} {rng.randint(-1, ln + 1)}")
+        ops.append(f"tagged.getn hex:{bytes(bs).hex()} {rng.randint(-1, ln)}")
     return ops
 
 
@@ -840,4 +843,191 @@ def gen_adaptive(rng, tier, slice_only=False):
     for t in (0, 1, 2, 3, 5):
         ops.append(f"adaptive.with t={t} {explicit([0, M64, 1 << 63, 1])}")
     ops.append(f"adaptive.with t=4 {explicit(list(range(0, 65536, 13)))}")
+    return ops
+
+
+# ---------------------------------------------------------------- C14 bounded decoders
+def py_dict_enc(vals):
+    d = sorted(set(vals))
+    w = 1 if len(d) == 0 else max(1, (max(len(d) - 1, 0).bit_length() + 7) // 8)
+    out = bytearray(tagged_enc(len(d)))
+    for x in d:
+        out += tagged_enc(x)
+    out += tagged_enc(len(vals))
+    pos = {x: i for i, x in enumerate(d)}
+    for v in vals:
+        out += pos[v].to_bytes(w, "little")
+    return bytes(out)
+
+
+def py_bits_pack(bits):
+    out = bytearray((len(bits) + 7) // 8)
+    for i, b in enumerate(bits):
+        if b:
+            out[i // 8] |= 1 << (7 - i % 8)
+    return bytes(out)
+
+
+def py_gamma_bits(v):
+    n = v.bit_length() - 1
+    return [0] * n + [(v >> (n - i)) & 1 for i in range(n + 1)]
+
+
+def py_delta_bits(v):
+    n = v.bit_length() - 1
+    return py_gamma_bits(n + 1) + [(v >> (n - 1 - i)) & 1 for i in range(n)]
+
+
+def py_bitmap_enc(kind, members):
+    members = sorted(set(members))
+    out = bytearray([kind]) + len(members).to_bytes(4, "little")
+    if kind == 0:
+        for m in members:
+            out += m.to_bytes(2, "little")
+    elif kind == 1:
+        bits = bytearray(8192)
+        for m in members:
+            bits[m // 8] |= 1 << (m % 8)
+        out += bits
+    else:
+        runs = []
+        for m in members:
+            if runs and runs[-1][0] + runs[-1][1] + 1 == m:
+                runs[-1][1] += 1
+            else:
+                runs.append([m, 0])
+        out += len(runs).to_bytes(4, "little")
+        for s, l in runs:
+            out += s.to_bytes(2, "little") + l.to_bytes(2, "little")
+    return bytes(out)
+
+
+def py_rle_enc(vals):
+    out = bytearray()
+    i = 0
+    while i < len(vals):
+        j = i
+        while j < len(vals) and vals[j] == vals[i]:
+            j += 1
+        out += tagged_enc(j - i) + tagged_enc(vals[i])
+        i = j
+    return bytes(out)
+
+
+def mutations(rng, enc, nmut, full_trunc_upto=80):
+    """every truncation (all prefixes when short, sampled when long), bit flips, byte overwrites with hostile values,
+    insertions of 0xff runs"""
+    outs = [enc]
+    n = len(enc)
+    cuts = range(n) if n <= full_trunc_upto else sorted(set(list(range(0, 24)) + [n - k for k in range(1, 24)] +
+                                                         [rng.randrange(n) for _ in range(24)]))
+    outs += [enc[:c] for c in cuts]
+    for _ in range(nmut):
+        b = bytearray(enc)
+        if not b:
+            break
+        k = rng.random()
+        if k < 0.35:
+            i = rng.randrange(min(len(b), 12)) if rng.random() < 0.7 else rng.randrange(len(b))
+            b[i] ^= 1 << rng.randrange(8)
+        elif k < 0.6:
+            i = rng.randrange(min(len(b), 12))
+            b[i] = rng.choice([0xFF, 0xFE, 0xFB, 0xFA, 0xF9, 0xF8, 0xF1, 0xF0, 0x00, 0x01, 0x80])
+        elif k < 0.8:
+            i = rng.randrange(min(len(b), 10))
+            hostile = rng.choice([tagged_enc(x) for x in (M64, 1 << 32, (1 << 32) - 1, 1 << 20, (1 << 20) + 1, 1 << 31, 65536, 4097)] +
+                                 [bytes([0xFF] * 4), bytes([0xFF] * 8), bytes([0, 0, 0, 0x80])])
+            b[i:i + len(hostile)] = hostile
+        else:
+            i = rng.randrange(len(b) + 1)
+            b[i:i] = bytes(rng.getrandbits(8) for _ in range(rng.randint(1, 4)))
+        cut = len(b) if rng.random() < 0.6 else rng.randrange(len(b) + 1)
+        outs.append(bytes(b[:cut]))
+    return outs
+
+
+def gen_bounded(rng, tier):
+    ops = []
+    quick = tier == "quick"
+    ops += gen_tagged_getn(rng, tier)
+    caps = [0, 1, 2, 5, 100, 100000]
+    # all byte strings of length <= 1, length 2 with interesting first bytes (thorough: all of length 2)
+    shorts = [b""] + [bytes([a]) for a in range(256)]
+    firsts = range(256) if not quick else [0, 1, 2, 3, 0x10, 0x7F, 0x80, 0xF0, 0xF1, 0xF8, 0xF9, 0xFA, 0xFB, 0xFE, 0xFF]
+    shorts += [bytes([a, b]) for a in firsts for b in (range(256) if not quick else range(0, 256, 5))]
+    for s in shorts:
+        h = s.hex()
+        ops.append(f"b.dict hex:{h}")
+        ops.append(f"b.dictinto cap={hx(rng.choice(caps))} hex:{h}")
+        ops.append(f"b.bitmap hex:{h}")
+        ops.append(f"b.rle hex:{h}")
+        for bits in sorted({0, max(0, 8 * len(s) - 3), 8 * len(s)}):
+            ops.append(f"b.gamma bits={hx(bits)} cap={hx(rng.choice(caps))} hex:{h}")
+            ops.append(f"b.delta bits={hx(bits)} cap={hx(rng.choice(caps))} hex:{h}")
+    narr = 14 if quick else 400
+    nmut = 25 if quick else 120
+    for _ in range(narr):
+        n = rng.choice([1, 2, 3, 8, 17, 100, 255, 256, 257, 600])
+        card = rng.choice([1, 2, 3, 200, 255, 256, 257, 70000])
+        pool = [rng.choice([rng.getrandbits(8), rng.getrandbits(16), rng.getrandbits(40), rng.getrandbits(64)])
+                for _ in range(min(card, n))]
+        vals = [rng.choice(pool) for _ in range(n)]
+        for m in mutations(rng, py_dict_enc(vals), nmut):
+            ops.append(f"b.dict hex:{m.hex()}")
+            ops.append(f"b.dictinto cap={hx(rng.choice([0, 1, n - 1, n, n + 1, 100000]))} hex:{m.hex()}")
+        # RLE streams
+        rv = []
+        while len(rv) < n:
+            rv += [rng.choice(pool)] * rng.choice([1, 1, 2, 7, 240, 241, 3000])
+        for m in mutations(rng, py_rle_enc(rv), nmut):
+            ops.append(f"b.rle hex:{m.hex()}")
+        # Elias streams
+        ev = [max(1, rng.getrandbits(rng.choice([1, 2, 7, 8, 31, 32, 33, 63, 64]))) for _ in range(min(n, 60))]
+        for delta in (False, True):
+            bits = []
+            for v in ev:
+                bits += py_delta_bits(v) if delta else py_gamma_bits(v)
+            enc = py_bits_pack(bits)
+            name = "b.delta" if delta else "b.gamma"
+            cuts = sorted(set([0, 1, 2, 7, 8, 9, len(bits) - 1, len(bits), len(bits) // 2] +
+                              [rng.randrange(len(bits) + 1) for _ in range(12)]))
+            for c in cuts:
+                if 0 <= c <= len(bits):
+                    ops.append(f"{name} bits={hx(c)} cap={hx(rng.choice([0, 1, len(ev) - 1, len(ev), len(ev) + 5]))} hex:{enc.hex()}")
+            for m in mutations(rng, enc, nmut // 2, full_trunc_upto=0):
+                b = rng.choice([8 * len(m), max(0, 8 * len(m) - rng.randint(0, 7)), rng.randint(0, 8 * len(m))])
+                ops.append(f"{name} bits={hx(b)} cap={hx(rng.choice([1, len(ev), 1000]))} hex:{m.hex()}")
+        # bitmap serialisations of all three containers
+        for kind in (0, 1, 2):
+            k = rng.choice([0, 1, 5, 100, 4095, 4096, 4097]) if kind != 1 else rng.choice([0, 5000, 65536])
+            lo = rng.randrange(0, 65536 - min(k, 60000)) if k < 60000 else 0
+            members = (rng.sample(range(65536), k) if kind != 2 else list(range(lo, lo + k // 2)) + rng.sample(range(65536), k - k // 2))
+            for m in mutations(rng, py_bitmap_enc(kind, members), nmut):
+                ops.append(f"b.bitmap hex:{m.hex()}")
+    # headers announcing enormous sizes in front of little data
+    for card in (0xFFFFFFFF, 0x7FFFFFFF, 0x80000000, 0x10000, 4097, 2):
+        for kind in (0, 1, 2, 3, 0xFF):
+            for tail in (0, 1, 3, 4, 7, 8, 12):
+                ops.append(f"b.bitmap hex:{bytes([kind]).hex()}{card.to_bytes(4, 'little').hex()}{(card.to_bytes(4, 'little') * 3)[:tail].hex()}")
+    for dsz in (0, 1, 255, 256, 257, 65536, 65537, (1 << 20) - 1, 1 << 20, (1 << 20) + 1, 1 << 32, M64):
+        for cnt in (0, 1, 2, 1 << 20, (1 << 61), (1 << 61) + 1, (1 << 64) - 1):
+            for k in (0, 1, 2):
+                body = tagged_enc(dsz) + b"".join(tagged_enc(i) for i in range(min(dsz, k))) + tagged_enc(cnt) + bytes(k)
+                ops.append(f"b.dict hex:{body.hex()}")
+                ops.append(f"b.dictinto cap={hx(rng.choice([1, 4, 100000]))} hex:{body.hex()}")
+    # random strings
+    for _ in range(300 if quick else 100000):
+        ln = rng.choice([3, 4, 5, 6, 9, 12, 33, 200, 4096]) if rng.random() < 0.9 else rng.randint(0, 4096)
+        if ln > 300 and rng.random() < 0.7:
+            ln = rng.randint(3, 300)
+        s = bytes(rng.getrandbits(8) for _ in range(ln))
+        if rng.random() < 0.5 and ln:
+            s = bytes([rng.choice([0, 1, 2, 3, 5])]) + s[1:]
+        name = rng.choice(["b.dict", "b.dictinto", "b.bitmap", "b.rle", "b.gamma", "b.delta"])
+        if name == "b.dictinto":
+            ops.append(f"{name} cap={hx(rng.choice(caps))} hex:{s.hex()}")
+        elif name in ("b.gamma", "b.delta"):
+            ops.append(f"{name} bits={hx(rng.randint(max(0, 8 * ln - 9), 8 * ln))} cap={hx(rng.choice(caps))} hex:{s.hex()}")
+        else:
+            ops.append(f"{name} hex:{s.hex()}")
     return ops
